@@ -154,6 +154,7 @@ type Op struct {
 	NAlts    func() int                // nil: 1; alternatives beyond 0 cost one deviation each
 	Exec     func(t *Thread, alt int)  // runs in the scheduler goroutine
 	Code     uint64                    // extra value mixed into the history (e.g. operation result)
+	FreeAlts bool                      // alternatives are environment/input choices, not deviations
 
 	isSel      bool
 	cases      []Case
@@ -388,6 +389,24 @@ func Post(o *Op) bool {
 	return true
 }
 
+// Choose is a free nondeterministic choice among n alternatives (inputs, environment
+// answers); the explorer enumerates all of them at no deviation cost.
+func Choose(n int, what string) int {
+	r := 0
+	Post(&Op{Name: "choose:" + what, FreeAlts: true, NAlts: func() int { return n }, Exec: func(_ *Thread, alt int) { r = alt }})
+	return r
+}
+
+// Mark sets a harness-visible marker on the running thread.
+func Mark(k string, v int) {
+	if t := Cur(); t != nil {
+		if t.Marks == nil {
+			t.Marks = map[string]int{}
+		}
+		t.Marks[k] = v
+	}
+}
+
 // Yield is a pure scheduling point.
 func Yield(name string) {
 	Post(&Op{Name: "yield:" + name, ReadOnly: true})
@@ -411,7 +430,7 @@ func (s *Sched) transitionsOf(t *Thread, withPark bool) []transition {
 		out := make([]transition, 0, n)
 		for a := 0; a < n; a++ {
 			x := 0
-			if a > 0 {
+			if a > 0 && !o.FreeAlts {
 				x = 1
 			}
 			out = append(out, transition{kind: trGeneric, t: t, alt: a, extra: x})
